@@ -8,10 +8,11 @@ CONSTANTS NK = 1
   D = 0
 INIT Init
 NEXT Next
-VIEW view
+VIEW viewE
 INVARIANT TypeOK
 INVARIANT PendingPure
 INVARIANT NeverMerged
+PROPERTY NeverMergedA
 PROPERTY ExactlyOnceAfterFinal
 PROPERTY AllPartsInOrder
 PROPERTY Isolation
